@@ -56,3 +56,30 @@ Theorem C01_recovery_fails_without_valid_header : forall fuel (d : cdisk) pg0 pg
   d 0 = Some pg0 -> d 1 = Some pg1 -> choose pg0 pg1 = SelErr -> mon_recover fuel d = None.
 Proof. exact recover_fails_iff_no_valid_header. Qed.
 Print Assumptions C01_recovery_uses_the_chosen_header.
+
+(* ---- the writer's scheduling queue (write.go Schedule / Sync / nextCommand): the commit protocol relies on sync = barrier ----
+   For every interleaving of Schedule / Sync calls with nextCommand calls of ANY buffer sizes: what the goroutine has
+   been handed so far, followed by what the queue still holds, is the sequence of writes and syncs in the order they
+   were scheduled. A sync is executed after all writes scheduled before it and before every write scheduled later. *)
+From VF Require Import WriterQueue WriterQueueProofs.
+Theorem C01_writer_queue_preserves_schedule : forall ops s,
+  Inv s -> buffers_ok ops ->
+  let '(s', out, inp) := wq_run s ops in
+  out ++ remaining s' = remaining s ++ inp /\ Inv s'.
+Proof. exact queue_preserves_schedule. Qed.
+Print Assumptions C01_writer_queue_preserves_schedule.
+
+Theorem C01_writer_executes_the_schedule : forall ops,
+  buffers_ok ops ->
+  let '(s', out, inp) := wq_run wq_init ops in
+  out ++ remaining s' = inp /\ (remaining s' = [] -> out = inp).
+Proof. exact executed_is_schedule. Qed.
+Print Assumptions C01_writer_executes_the_schedule.
+
+(* false for the variant that tests "sync due" against all queued writes and clamps to the buffer afterwards *)
+Theorem C01_late_clamp_refuted : exists ops,
+  buffers_ok ops /\
+  let '(s', out, inp) := wq_run_late wq_init ops in
+  remaining s' = [] /\ out <> inp /\ inp = [EW 1; EW 2; EW 3; ES] /\ out = [EW 1; EW 2; ES; EW 3].
+Proof. exact late_clamp_refuted. Qed.
+Print Assumptions C01_late_clamp_refuted.
